@@ -11,9 +11,11 @@
   spec), every eval oracle `ev` (each expression may evaluate to any text or fail with any error text).  No bound.
 -/
 import DeepModel.Proofs.Template
+import DeepModel.Proofs.ActionCtx
+import DeepModel.Props.C04
 
 namespace C16
-open Template Extracted.Expr
+open Template Extracted.Expr Extracted.Limiter
 
 /-- **parse ∘ unparse** — a template written from literal runs (braces doubled) and `{expression}` fields is read
     back as exactly those segments: literal text and braces preserved, fields in order with their conversion and
@@ -105,7 +107,7 @@ theorem c16_render_plain (ev : String → Outcome) (segs : List Seg) (hw : allWf
   rw [c16_render ev segs hw hn, pieces_plain ev segs hp]
   rfl
 
-/-- **a failing field is local** — two oracles that differ only on expression `e` (say `e` fails under the second)
+/-- model lemma: **a failing field is local** — two oracles that differ only on expression `e` (say `e` fails under the second)
     give every segment other than the fields naming `e` the same piece; with plain fields both messages exist. -/
 theorem c16_field_failure_local (ev ev' : String → Outcome) (e : String)
     (hagree : ∀ x, x ≠ e → ev x = ev' x) (s : Seg)
@@ -158,18 +160,36 @@ theorem c16_labels (msg tp ctx : String) :
     loggerReceives msg tp ctx = [(.msg, msg), (.tpId, tp), (.ctxId, ctx)] := by
   simp [loggerReceives, logSignature, logCallArgs, logArgValue]
 
-/-- the default logger prints the message followed by the two ids, each under its own label -/
+/-- tripwire: the default logger prints the message followed by the two ids, each under its own label -/
 theorem c16_default_logger (msg tp ctx : String) :
     defaultLogLine msg tp ctx = msg ++ " ctx=" ++ ctx ++ " tracepoint=" ++ tp := rfl
 
-/-- **snapshot agrees** — when the tracepoint also collects, the snapshot's log message is the very message the
-    logger receives, and it carries exactly one LOG watch per field of the template, in order; exactly one logger
-    call is made per processed hit. -/
-theorem c16_snapshot_agrees (ev : String → Outcome) (tpl tp ctx : String) (r : Rendered)
-    (hr : render ev tpl = .ok r) :
-    logAction ev tpl tp ctx true = ⟨[loggerReceives r.msg tp ctx], some r.msg, r.watches, 1⟩ ∧
-    logAction ev tpl tp ctx false = ⟨[loggerReceives r.msg tp ctx], none, [], 0⟩ := by
-  simp [logAction, hr]
+/-- **snapshot agrees** — over the written-out log branch of `SnapshotActionContext._process_action`,
+    `LogActionContext._process_action` and `LogActionResult.process` (shapes checked against the source on every run):
+    when the tracepoint also collects, the snapshot's log message is the very message the logger receives, it
+    carries exactly the LOG watches of that message, and exactly one logger call is made per processed hit — for any
+    logger object the code finds. -/
+theorem c16_snapshot_agrees (lg : LoggerObj) (hl : loggerFound lg = true) (ev : String → Outcome) (tpl tp ctx : String)
+    (r : Rendered) (hr : render ev tpl = .ok r) :
+    logActionWith lg ev tpl tp ctx true = ⟨[loggerReceives r.msg tp ctx], some r.msg, r.watches, 1⟩ ∧
+    logActionWith lg ev tpl tp ctx false = ⟨[loggerReceives r.msg tp ctx], none, [], 0⟩ := by
+  simp [logActionWith, snapshotLogBranch, logActionAttach, procLog, hr, logResultProcess, hl]
+
+/-- no tracepoint logger configured: the message is still rendered and recorded on the snapshot, nobody is called -/
+theorem c16_no_logger (ev : String → Outcome) (tpl tp ctx : String) (r : Rendered) (hr : render ev tpl = .ok r) :
+    logActionWith .absent ev tpl tp ctx true = ⟨[], some r.msg, r.watches, 1⟩ ∧
+    logActionWith .absent ev tpl tp ctx false = ⟨[], none, [], 0⟩ := by
+  have h0 : loggerFound .absent = false := rfl
+  simp [logActionWith, snapshotLogBranch, logActionAttach, procLog, hr, logResultProcess, h0]
+
+/-- a registered logger object that is falsy (`__len__` 0, `__bool__` False) is treated as absent, because
+    `LogActionResult.process` tests the logger's truthiness (candidate finding `C16/falsy-logger-skipped`):
+    negation of "the message goes to the configured tracepoint logger", on a witness. -/
+theorem c16_falsy_logger_witness :
+    (logActionWith .falsy (fun _ => ⟨false, false, "int", "5", .int 5⟩) "n={n}" "tp" "ctx" false).logger = [] ∧
+    (logActionWith .plain (fun _ => ⟨false, false, "int", "5", .int 5⟩) "n={n}" "tp" "ctx" false).logger
+      = [[(.msg, "[deep] n=5"), (.tpId, "tp"), (.ctxId, "ctx")]] := by
+  decide
 
 theorem c16_snapshot_watches (ev : String → Outcome) (segs : List Seg) (hw : allWf segs) (hn : namesNonEmpty segs)
     (r : Rendered) (hr : render ev (String.ofList (unparse segs)) = .ok r) :
@@ -182,10 +202,74 @@ theorem c16_snapshot_watches (ev : String → Outcome) (segs : List Seg) (hw : a
     simp only [Except.ok.injEq] at hr
     rw [← hr]
 
+/-- model lemma: the hits that fire are hits of the history -/
+theorem C10bridge (c : ActionCtx.Cfg) (hs : List ActionCtx.Hit) (hco : ∀ h ∈ hs, h.coherent) :
+    ∀ h ∈ ActionCtx.runHits c hs, h ∈ hs := by
+  intro h hh
+  have gen : ∀ (hs : List ActionCtx.Hit) (st : Extracted.Limiter.Stats), ∀ h ∈ (ActionCtx.runFrom c st hs).2, h ∈ hs := by
+    intro hs
+    induction hs with
+    | nil => intro st h hm; simp [ActionCtx.runFrom] at hm
+    | cons x xs ih =>
+      intro st h hm
+      simp only [ActionCtx.runFrom] at hm
+      split at hm
+      · rcases List.mem_cons.mp hm with rfl | hm
+        · exact List.mem_cons_self ..
+        · exact List.mem_cons_of_mem _ (ih _ h hm)
+      · exact List.mem_cons_of_mem _ (ih _ h hm)
+  exact gen hs _ h hh
+
+/-- a log tracepoint over a history of hits: what happens at the hits that fire (C04 / C10 decide which); each hit has
+    its own frame (`evOf`) and context id -/
+def logHistory (c : ActionCtx.Cfg) (lg : LoggerObj) (evOf : ActionCtx.Hit → String → Outcome) (tpl tp : String)
+    (ctxOf : ActionCtx.Hit → String) (collect : Bool) (hs : List ActionCtx.Hit) : List LogEffect :=
+  (ActionCtx.runHits c hs).map (fun h => logActionWith lg (evOf h) tpl tp (ctxOf h) collect)
+
+/-- **one message per permitted hit** — over any history, with a template that renders and a logger the code finds:
+    the logger is called exactly once for every hit that fires and never otherwise (number of calls = number of fired
+    hits), and with a fire_count other than -1 that is at most `max fire_count 0` messages. -/
+theorem c16_one_per_hit (c : ActionCtx.Cfg) (lg : LoggerObj) (hl : loggerFound lg = true)
+    (evOf : ActionCtx.Hit → String → Outcome) (tpl tp : String) (ctxOf : ActionCtx.Hit → String) (collect : Bool)
+    (hs : List ActionCtx.Hit) (hco : ∀ h ∈ hs, h.coherent)
+    (hr : ∀ h ∈ hs, ∃ r, render (evOf h) tpl = .ok r) :
+    (∀ e ∈ logHistory c lg evOf tpl tp ctxOf collect hs, e.logger.length = 1) ∧
+    ((logHistory c lg evOf tpl tp ctxOf collect hs).flatMap (·.logger)).length = (ActionCtx.runHits c hs).length ∧
+    (c.lim.count ≠ -1 → (((logHistory c lg evOf tpl tp ctxOf collect hs).flatMap (·.logger)).length : Int) ≤ max c.lim.count 0) := by
+  have hfired : ∀ h ∈ ActionCtx.runHits c hs, h ∈ hs := fun h hh => (C10bridge c hs hco h hh)
+  have hone : ∀ h ∈ ActionCtx.runHits c hs, (logActionWith lg (evOf h) tpl tp (ctxOf h) collect).logger.length = 1 := by
+    intro h hh
+    obtain ⟨r, hrr⟩ := hr h (hfired h hh)
+    have := c16_snapshot_agrees lg hl (evOf h) tpl tp (ctxOf h) r hrr
+    cases collect
+    · rw [this.2]; rfl
+    · rw [this.1]; rfl
+  have hlen : ((logHistory c lg evOf tpl tp ctxOf collect hs).flatMap (·.logger)).length = (ActionCtx.runHits c hs).length := by
+    unfold logHistory
+    generalize ActionCtx.runHits c hs = fired at hone
+    induction fired with
+    | nil => rfl
+    | cons x xs ih =>
+      simp only [List.map_cons, List.flatMap_cons, List.length_append, List.length_cons]
+      rw [hone x (List.mem_cons_self ..), ih (fun h hh => hone h (List.mem_cons_of_mem _ hh))]
+      omega
+  refine ⟨?_, hlen, ?_⟩
+  · intro e he
+    unfold logHistory at he
+    obtain ⟨h, hh, rfl⟩ := List.mem_map.mp he
+    exact hone h hh
+  · intro hc
+    rw [hlen]
+    have hb := ActionCtx.runFrom_toLim c hs hco Stats.init
+    have hcnt := C04.c04_count c.lim (hs.map (ActionCtx.toLim c)) hc
+    unfold Limiter.runHits at hcnt
+    rw [hb] at hcnt
+    simpa [ActionCtx.runHits] using hcnt
+
 /-- a template the formatter rejects produces no message (and, on a collecting tracepoint, no snapshot) -/
 theorem c16_malformed_nothing (ev : String → Outcome) (tpl tp ctx : String) (collect : Bool) (e : Err)
-    (hr : render ev tpl = .error e) : logAction ev tpl tp ctx collect = ⟨[], none, [], 0⟩ := by
-  simp [logAction, hr]
+    (hr : render ev tpl = .error e) (lg : LoggerObj) : logActionWith lg ev tpl tp ctx collect = ⟨[], none, [], 0⟩ := by
+  cases collect <;> simp [logActionWith, snapshotLogBranch, logActionAttach, procLog, hr]
 
 /-! ### non-vacuity -/
 
